@@ -8,7 +8,7 @@ import e2e
 import gen_models as G
 from core import Family, q, unq, run_model, run_impl, cmp_tree, close
 
-GEN_FILES = ["ParamsTemplateGen.v"]
+GEN_FILES = ["ParamsTemplateGen.v", "WeightFunc.v"]
 TRUSTED = e2e.TRUSTED + ["Model/ParamsTemplate.v is the hand model of create_params_template: tied by family template"]
 ASSUMPTIONS = e2e.ASSUMPTIONS
 
